@@ -235,4 +235,5 @@ package rtmp
 //@   let before = stream.msg.buff.wpos - stream.msg.buff.rpos - int(neededSize)
 //@   assert after "stream.msg.Flush(neededSize)" [C08.rd.needed] int: 0 <= before && before <= int(stream.header.MsgLen) ==> int(neededSize) == (int(stream.header.MsgLen) - before <= int(c.peerChunkSize) ? int(stream.header.MsgLen) - before : int(c.peerChunkSize))
 //@   assert after "stream.header.Csid = csid" [C08.rd.setchunksize] stream.header.MsgTypeId == 1 && stream.msg.buff.wpos - stream.msg.buff.rpos >= 4 ==> c.peerChunkSize == be32(stream.msg.buff.core, stream.msg.buff.rpos)
+//@   assert after "stream.msg.Skip(aggregateStream.header.MsgLen)" [C08.rd.aggregate] int: aggregateStream != stream ==> aggregateStream.msg.buff.wpos - aggregateStream.msg.buff.rpos == int(aggregateStream.header.MsgLen)
 //@ end
